@@ -6,11 +6,12 @@ of a non-empty `NoAccess` region.
 namespace DryocVerif.Proofs.Protected
 open DryocVerif DryocVerif.Model.Protected
 
-/-- `InvK` is re-established and `Tight` is kept -/
+/-- `InvK` is re-established, and `Tight` is kept provided a failed lock request cannot leave a flag behind on
+accessible pages (`Leakless`: repaired `dryoc_mlock`, or an oracle that never answers `failFlagged`) -/
 def Pres (c : Cfg) (s : State) (r : Res × State) : Prop :=
-  InvK c r.2 ∧ (Tight c s → Tight c r.2)
+  InvK c r.2 ∧ (Leakless c s.m → Tight c s → Tight c r.2)
 
-theorem pres_same {c : Cfg} {s : State} (h : InvK c s) (x : Res) : Pres c s (x, s) := ⟨h, id⟩
+theorem pres_same {c : Cfg} {s : State} (h : InvK c s) (x : Res) : Pres c s (x, s) := ⟨h, fun _ => id⟩
 
 theorem stLocked_prot (lm : LM) (pm pm' : PM) : stLocked (.prot lm pm) = stLocked (.prot lm pm') := by
   cases lm <;> rfl
@@ -26,7 +27,7 @@ theorem pres_opFill {c : Cfg} (hP : 0 < c.P) {s : State} (h : InvK c s) (i : Nat
   have g := good_head hs hg h
   have fill : Pres c s (Res.ok, setSlot s s.m i
       { sl with o := { sl.o with v := fillV sl.o.v b }, rnd := false }) := by
-    refine ⟨inv_set_live hs hi hg ?_, fun t => tight_set_live hs hi hg ?_⟩
+    refine ⟨inv_set_live hs hi hg ?_, fun _ t => tight_set_live hs hi hg ?_⟩
     · exact good_setbuf hP g rfl rfl rfl (fillV_buf_length _ _)
     · exact tight_setvec (tight_head hs hg t) rfl rfl
   split
@@ -37,7 +38,7 @@ theorem pres_opFill {c : Cfg} (hP : 0 < c.P) {s : State} (h : InvK c s) (i : Nat
 theorem pres_doLock {c : Cfg} (hP : 0 < c.P) {s : State} (h : InvK c s) {i : Nat} {sl : Slot}
     {l1 l2 : List Slot} (hs : s.slots = l1 ++ sl :: l2) (hi : l1.length = i) (hg : sl.gone = false)
     (rc : LM × PM) (pm : PM) (hst : blkOf sl.o = ⟨sl.o.v, pm.perm, false⟩)
-    (hna : c.undo = true ∨ pm.perm ≠ .none ∨ sl.o.v.len = 0) :
+    (hna : c.undo = true ∨ (pm.perm ≠ .none ∧ s.m.oracle (s.m.cnt + 1) ≠ .failFlagged) ∨ sl.o.v.len = 0) :
     Pres c s (doLock c s i sl rc pm) := by
   have g := good_head hs hg h
   rw [hst] at g
@@ -45,13 +46,13 @@ theorem pres_doLock {c : Cfg} (hP : 0 < c.P) {s : State} (h : InvK c s) {i : Nat
   unfold doLock
   by_cases hr : (lockV c s.m sl.o.v rc).2 = true
   · simp only [hr, if_true]
-    refine ⟨inv_set_live hs hi hg (gl.1 hr), fun t => tight_set_live hs hi hg ?_⟩
+    refine ⟨inv_set_live hs hi hg (gl.1 hr), fun _ t => tight_set_live hs hi hg ?_⟩
     have t' := tight_head hs hg t
     rw [hst] at t'
     exact (tight_lockV hP t' g rc hna).1 hr
   · simp only [hr]
     have hr' : (lockV c s.m sl.o.v rc).2 = false := by simpa using hr
-    refine ⟨inv_set_gone hs hi rfl (gl.2 hr'), fun t => tight_set_gone hs hi rfl ?_⟩
+    refine ⟨inv_set_gone hs hi rfl (gl.2 hr'), fun _ t => tight_set_gone hs hi rfl ?_⟩
     have t' := tight_head hs hg t
     rw [hst] at t'
     exact (tight_lockV hP t' g rc hna).2 hr'
@@ -86,21 +87,23 @@ theorem inv_opLock {c : Cfg} (hP : 0 < c.P) {s : State} (h : InvK c s) (i : Nat)
   · exact h
 
 theorem pres_opLock {c : Cfg} (hP : 0 < c.P) {s : State} (h : InvK c s) (i : Nat)
-    (hno : c.undo = true ∨ ¬ LocksNoAccess s ⟨.lock, i⟩) : Pres c s (opLock c s i) := by
+    (hno : c.undo = true ∨ (¬ LocksNoAccess s ⟨.lock, i⟩ ∧ NoFF s.m)) : Pres c s (opLock c s i) := by
   unfold opLock
   apply withLive_elim _ _ _ _ (pres_same h _) (pres_same h _)
   intro sl l1 l2 hs hi hg
+  have hl : Leakless c s.m := hno.imp id (fun x => x.2)
   split
   · rename_i hst
     exact pres_doLock hP h hs hi hg _ .rw (by simp [blkOf, hst, stPerm, stLocked, PM.perm])
-      (Or.inr (Or.inl (by simp [PM.perm])))
+      (hl.hdp_rw rfl (by simp [PM.perm]))
   · rename_i pm hst
     refine pres_doLock hP h hs hi hg _ pm (by simp [blkOf, hst, stPerm, stLocked]) ?_
-    rcases hno with hu | hno
+    rcases hno with hu | ⟨hno, hff⟩
     · exact Or.inl hu
     by_cases h0 : sl.o.v.len = 0
     · exact Or.inr (Or.inr h0)
     · right; left
+      refine ⟨?_, hff _⟩
       intro hp
       have : pm = .na := by cases pm <;> simp [PM.perm] at hp ⊢
       apply hno
@@ -117,7 +120,7 @@ theorem pres_opUnlock {c : Cfg} (hP : 0 < c.P) {s : State} (h : InvK c s) (i : N
   split
   · exact pres_same h _
   · rename_i lm pm hst
-    refine ⟨inv_set_live hs hi hg ?_, fun t => tight_set_live hs hi hg ?_⟩
+    refine ⟨inv_set_live hs hi hg ?_, fun _ t => tight_set_live hs hi hg ?_⟩
     · have := good_munlock hP g
       simpa [blkOf, hst, stPerm, stLocked] using this
     · exact tight_munlock hP (tight_head hs hg t) (g.ok _ (List.mem_cons_self)).lenle _ _
@@ -131,7 +134,7 @@ theorem pres_opProtect {c : Cfg} (hP : 0 < c.P) {s : State} (h : InvK c s) (i : 
   split
   · exact pres_same h _
   · rename_i lm pm0 hst
-    refine ⟨inv_set_live hs hi hg ?_, fun t => tight_set_live hs hi hg ?_⟩
+    refine ⟨inv_set_live hs hi hg ?_, fun _ t => tight_set_live hs hi hg ?_⟩
     · have := good_mprotect hP g pm.perm
       simpa [blkOf, hst, stPerm, stLocked_prot lm pm pm0] using this
     · exact tight_mprotect hP (tight_head hs hg t) (g.ok _ (List.mem_cons_self)).lenle _ _ _
@@ -144,7 +147,7 @@ theorem pres_opNa {c : Cfg} (hP : 0 < c.P) {s : State} (h : InvK c s) (i : Nat) 
   have g := good_head hs hg h
   split
   · rename_i pm0 hst
-    refine ⟨inv_set_live hs hi hg ?_, fun t => tight_set_live hs hi hg ?_⟩
+    refine ⟨inv_set_live hs hi hg ?_, fun _ t => tight_set_live hs hi hg ?_⟩
     · have := good_mprotect hP g .none
       simpa [blkOf, hst, stPerm, stLocked, PM.perm] using this
     · exact tight_mprotect hP (tight_head hs hg t) (g.ok _ (List.mem_cons_self)).lenle _ _ _
@@ -174,7 +177,7 @@ theorem pres_opDrop {c : Cfg} (hP : 0 < c.P) {s : State} (h : InvK c s) (hrec : 
   apply withLive_elim _ _ _ _ (pres_same h _) (pres_same h _)
   intro sl l1 l2 hs hi hg
   have g := good_head hs hg h
-  refine ⟨inv_set_gone hs hi rfl ?_, fun t => tight_set_gone hs hi rfl ?_⟩
+  refine ⟨inv_set_gone hs hi rfl ?_, fun _ t => tight_set_gone hs hi rfl ?_⟩
   · exact good_objDrop hP (o := sl.o) g
   · exact tight_objDrop hP (tight_head hs hg t) g (hrec sl (mem_split hs) hg)
 
@@ -196,7 +199,7 @@ theorem pres_opResize {c : Cfg} (hP : 0 < c.P) {s : State} (h : InvK c s) (hrec 
       injection hb with _ h2 h3
       rw [h2, h3]
     rw [hb] at g
-    refine ⟨inv_set_live hs hi hg ?_, fun t => tight_set_live hs hi hg ?_⟩
+    refine ⟨inv_set_live hs hi hg ?_, fun _ t => tight_set_live hs hi hg ?_⟩
     · simp only [hb']; exact good_vecResize hP g n b
     · have t' := tight_head hs hg t
       rw [hb] at t'
@@ -211,22 +214,22 @@ theorem pres_opResize {c : Cfg} (hP : 0 < c.P) {s : State} (h : InvK c s) (hrec 
     have hrc : sl.o.rcd.1 = .locked := by rw [hrec sl (mem_split hs) hg _ _ hst]
     rw [hb] at g
     have gl := good_lockedResize hP g sl.o.rcd n b
-    have tl := fun t : Tight c s => tight_lockedResize hP (by
-      have t' := tight_head hs hg t; rwa [hb] at t') g sl.o.rcd (fun _ => hrc) n b
+    have tl := fun (hl : Leakless c s.m) (t : Tight c s) => tight_lockedResize hP (by
+      have t' := tight_head hs hg t; rwa [hb] at t') g sl.o.rcd (fun _ => hrc) hl n b
     cases hn : (lockedResize c s.m sl.o.v sl.o.rcd n b).2 with
     | none =>
       simp only [hn] at gl tl ⊢
       rw [← hb] at gl tl
-      refine ⟨?_, fun t => ?_⟩
+      refine ⟨?_, fun hl t => ?_⟩
       · unfold InvK; simp only [hs]
         exact gl.perm (blks_mid_live hg l1 l2).symm
       · unfold Tight; simp only [hs]
-        exact (tl t).perm (blks_mid_live hg l1 l2).symm
+        exact (tl hl t).perm (blks_mid_live hg l1 l2).symm
     | some nv =>
       simp only [hn] at gl tl ⊢
-      refine ⟨inv_set_live hs hi hg ?_, fun t => tight_set_live hs hi hg ?_⟩
+      refine ⟨inv_set_live hs hi hg ?_, fun hl t => tight_set_live hs hi hg ?_⟩
       · simpa [blkOf, hst, stPerm, stLocked, PM.perm] using gl
-      · simpa [blkOf, hst, stPerm, stLocked, PM.perm] using tl t
+      · simpa [blkOf, hst, stPerm, stLocked, PM.perm] using tl hl t
   · exact pres_same h _
 
 end DryocVerif.Proofs.Protected
